@@ -3,8 +3,9 @@
 //
 // Fault enumeration (E2) on the real producers/consumers: every stream the
 // codecs touch is a scripted double whose behaviour (chunk sizes, zero-length
-// reads, data together with EOF, failure at any read or write) is a choice
-// point. For every content of up to 3 (quick) / 4 (thorough) bytes over
+// reads, data together with EOF, an error together with k>=0 bytes that is
+// sticky / not repeated / followed by a premature EOF, short writes with an
+// error, failing Close) is a choice point (props/c15/doubles.go). For every content of up to 3 (quick) / 4 (thorough) bytes over
 // {a, \x00, \xff, \n} EVERY choice sequence is executed; longer contents and
 // the documents of the structured codecs get every sequence with at most
 // `bound` deviations from the bytes.Reader-like default (long contents 1 quick /
@@ -263,6 +264,11 @@ func buildCases(thorough bool) (cases []Case, sizes map[string]any) {
 		"bytestream_destination_kinds": len(bsConsumeKinds), "text_destination_kinds": len(textConsumeKinds),
 		"bytestream_source_kinds": len(bsProduceKinds), "text_source_kinds": len(textProduceKinds),
 		"structured_bad_destinations": len(badDests), "roundtrip_values": len(family),
+		"injected_errors_offered_per_stream": 2,
+		"reader_behaviours_per_read":         "deliver all | 1 byte | all-1 | all together with io.EOF | zero-length read | non-EOF error together with k bytes, k in {0, 1, all}, after which the stream is sticky (keeps failing) | resumes (error not repeated) | ends with io.EOF losing the remaining bytes",
+		"writer_behaviours_per_write":        "accept all | error after accepting k bytes, k in {0, 1, all-1} (short write with error), after which the stream is sticky | resumes",
+		"close_behaviours":                   "Close succeeds | Close returns an error (the stream is closed either way); a closed stream fails every later Read/Write",
+		"shared_instance_sequences":          "after every successful byte-exact case the SAME consumer/producer value is used a second time on a fresh stream with the complemented content: the second result must be what a fresh instance gives and the first result must not change",
 	}
 	add := func(c Case) { cases = append(cases, c) }
 
@@ -460,7 +466,8 @@ func main() {
 	}
 	r.Set("executions_per_sweep", total.byBound)
 	r.Assume(
-		"scripted stream doubles (engine/doubles Reader/Writer plus the close-aware wrappers in props/c15) behave as io.Reader/io.Writer allow; a stream that was closed fails every later Read/Write",
+		"scripted streams (props/c15/doubles.go, an extension of engine/doubles) behave as io.Reader/io.Writer allow: errors may come together with data and need not be repeated; a stream that was closed fails every later Read/Write",
+		"byte-exact codecs: every non-EOF error a stream returned must surface as an error of the call (also when the stream resumed afterwards); JSON/XML/YAML: the call fails or the decoded value is complete and equal",
 		"for destinations that are interfaces implemented by the harness (io.Writer, io.ReaderFrom, Binary/TextUnmarshaler) 'bytes stored' means the bytes handed over",
 		"round-trip values are restricted to what each format can represent (no control characters in XML, no empty non-nil slices in XML, dynamically typed JSON numbers are json.Number)",
 		"not judged because the statement does not force it: nil reader, unsupported or nil SOURCE of a producer, error on empty text input for an unsupported destination, the value left in a pre-populated destination of JSON/XML/YAML, error identity",
